@@ -291,18 +291,35 @@ def dirty1(ctx, rule="DIRTY-1"):
             continue
         S = Sym(prog, f)
         mut_blocks = set()
+        FIELDS = ("strings", "codepage", "long_string_refs")
+        NAV = re.compile(r"(IndexMut::index_mut|Index::index|<impl \[T\]>::iter_mut|IntoIterator::into_iter|Iterator::enumerate|Iterator::next|"
+                         r"DerefMut::deref_mut|Deref::deref|<impl \[T\]>::iter|Option::<T>::as_mut|<impl \[T\]>::get_mut|<impl \[T\]>::len|Vec::<T, A>::len)$")
+        borrows = set()
         for bl in f.blocks:
             if bl["cleanup"]:
                 continue
             for s in bl["stmts"]:
                 names = [e["n"] for e in s["lhs"]["p"] if isinstance(e, dict) and "f" in e]
-                if s["lhs"]["l"] == 1 and names and names[0] in ("strings", "codepage", "long_string_refs"):
+                if s["lhs"]["l"] == 1 and names and names[0] in FIELDS:
                     mut_blocks.add(bl["id"])
                 r = s["rhs"]
                 if r["rv"] == "ref" and r.get("mut") and r["pl"]["l"] == 1:
                     nm = [e["n"] for e in r["pl"]["p"] if isinstance(e, dict) and "f" in e]
-                    if nm and nm[0] in ("strings", "codepage", "long_string_refs"):
-                        mut_blocks.add(bl["id"])
+                    if nm and nm[0] in FIELDS:
+                        borrows.add(s["lhs"]["l"])
+        from ..flow import derived_locals
+        D = derived_locals(f, borrows, through_calls=lambda t: NAV.search(t.get("callee") or "") is not None) if borrows else set()
+        for bl in f.blocks:
+            if bl["cleanup"]:
+                continue
+            for s in bl["stmts"]:
+                if s["lhs"]["l"] in D and "*" in s["lhs"]["p"]:
+                    mut_blocks.add(bl["id"])  # store through the borrow
+            t = bl["term"]
+            if t["t"] == "call" and not NAV.search(t.get("callee") or ""):
+                for a in t["args"]:
+                    if a.get("pl") and a["pl"]["l"] in D and f.locals[a["pl"]["l"]].startswith("&mut"):
+                        mut_blocks.add(bl["id"])  # hands the &mut to something that may write
         sets = [(b, s) for (b, s) in field_assigns(f, "is_modified")]
         set_true = {b for (b, s) in sets if const_assigned(s) == 1}
         set_false = {b for (b, s) in sets if const_assigned(s) == 0}
